@@ -45,10 +45,17 @@ def gen_config(rng):
     if rng.random() < 0.25:
         # a family of modes: Mode2 derives from Mode and redefines some state functions (other successor, other signature)
         over = {}
+        extra = None
+        if rng.random() < 0.5:
+            # the derived mode also adds a state of its own (reached from one of its redefined states)
+            extra = {"name": "sx", "kind": "timed", "duration": _dur(dyadic, rng), "next": rng.choice(names + [None]),
+                     "sig": rng.choice(ALL_SIGS)}
         for x in states:
             if rng.random() < 0.4:
-                over[x["name"]] = {"sig": rng.choice(ALL_SIGS), "next": (rng.choice(names + [None]) if x["kind"] == "timed" else None)}
-        family = {"over": over, "run_derived": rng.random() < 0.6, "other_when": rng.choice(["before", "after", "after"])}
+                over[x["name"]] = {"sig": rng.choice(ALL_SIGS), "next": (rng.choice(names + [None] + (["sx", "sx"] if extra else [])) if x["kind"] == "timed" else None)}
+                if x["kind"] == "timed" and rng.random() < 0.5:
+                    over[x["name"]]["duration"] = _dur(dyadic, rng)      # ... and may change a duration
+        family = {"over": over, "run_derived": rng.random() < 0.6, "other_when": rng.choice(["before", "after", "after"]), "extra": extra}
     return {"dyadic": dyadic, "states": states, "first": rng.choice(names[:2]), "vars": vars_, "family": family,
             "mode_name": rng.choice(["Drive Forward", "M", "two_ball"]), "ctor_comps": ctor_comps,
             "boot_us": (rng.choice([0, 64, 64000]) * GRID_US) if dyadic else rng.choice([0, 33333, 7_000_001])}
@@ -66,7 +73,11 @@ def effective(cfg):
             st = dict(st, sig=o["sig"], tag="Mode2")
             if st["kind"] == "timed":
                 st["next"] = o["next"]
+                if "duration" in o:
+                    st["duration"] = o["duration"]
         sts.append(st)
+    if fam.get("extra"):
+        sts.append(dict(fam["extra"], tag="Mode2"))
     return dict(cfg, states=sts, mode_name=cfg["mode_name"] + " v2", run_cls="Mode2")
 
 
@@ -169,12 +180,18 @@ def build_source(cfg):
                 continue
             first = st["name"] == cfg["first"]
             if st["kind"] == "timed":
-                deco = f"@timed_state(duration={st['duration']!r}, next_state={o['next']!r}, first={first})"
+                deco = f"@timed_state(duration={o.get('duration', st['duration'])!r}, next_state={o['next']!r}, first={first})"
             else:
                 deco = f"@state(first={first})" if first else "@state"
             args = ", ".join(["self"] + o["sig"])
             d = "{" + ", ".join(f"{a!r}: {a}" for a in o["sig"]) + "}"
             L += [f"    {deco}", f"    def {st['name']}({args}):", f"        self._sim.call(self, {st['name']!r}, {d}, 'Mode2')"]
+        if fam.get("extra"):
+            x = fam["extra"]
+            args = ", ".join(["self"] + x["sig"])
+            d = "{" + ", ".join(f"{a!r}: {a}" for a in x["sig"]) + "}"
+            L += [f"    @timed_state(duration={x['duration']!r}, next_state={x['next']!r})", f"    def sx({args}):",
+                  f"        self._sim.call(self, 'sx', {d}, 'Mode2')"]
     return "\n".join(L) + "\n"
 
 
